@@ -125,6 +125,22 @@ def run(ctx):
             if not starts:
                 ctx.bad("R01.2", key + "-unused", loc(d, p.bb), "the popped entry is never taken out of the Option: it is dropped unwritten")
                 continue
+            # inlined consumer: the drain body itself hands the popped entry (by reference) to EntryIoStream::next
+            pr_d = Prov(d)
+            inline_next = [c for c in d.calls() if is_next(c) and len(c.args) >= 2 and any(x[0] in ("call", "callf") and x[1] == p.bb for x in pr_d.operand(c.args[1]))]
+            if inline_next:
+                some_t = None
+                for sw_, tg_, oth_ in switch_on_call_result(d, p):
+                    some_t = tg_.get(1)
+                once = all(c.bb not in d.reachable_after(c.bb, avoid=[p.bb]) for c in inline_next) and len(inline_next) == 1
+                every = some_t is not None and p.bb not in d.reachable(some_t, avoid=[c.bb for c in inline_next] + ([] if some_t not in [c.bb for c in inline_next] else []))
+                if some_t in [c.bb for c in inline_next]:
+                    every = True
+                ctx.check(once and every, "R01.2", key + "-written-once-per-pop", loc(d, p.bb),
+                          "a popped entry is not handed to EntryIoStream::next exactly once before the next pop (%s)" % ("an iteration can skip the write" if once else "written twice"),
+                          "next at bb%s once per popped entry" % [c.bb for c in inline_next])
+                consumers.append((d, ("pop", p.bb), d, None))
+                continue
             for st in starts:
                 def allowed(cs, i, d=d):
                     if cs is None:
@@ -151,8 +167,8 @@ def run(ctx):
                 continue
             nsw += 1
             o = pr.operand(t["discr"])
-            hit = [x[1] for x in o if x[0] == "call" and x[1] in consumer_bbs]
-            if hit:
+            hit = [x[1] for x in o if x[0] in ("call", "callf") and x[1] in consumer_bbs]
+            if hit and not _arms_rejoin(d, i, pops):
                 bad = (i, hit[0])
         ctx.check(bad is None, "R01.3", fnkey(d) + "#drain-control-independent-of-stream-result", loc(d, bad[0] if bad else None),
                   "a branch of the drain loop depends on the result of writing an entry (bb%s): an error could stop, skip or repeat later entries" % (bad,),
@@ -160,6 +176,27 @@ def run(ctx):
         ctx.check(not reaches_call(F, d, is_insert, depth=3), "R01.3", fnkey(d) + "#no-reinsertion", loc(d),
                   "the drain path can re-insert into the ring (entries could be repeated or reordered)")
     ctx.floor("R01.2", "consumer bodies receiving a popped entry", len(consumers), 1)
+    # R01.3 (through state): what the consumer writes on an error arm (its counters) does not steer the drain loop either
+    written = set()
+    for sb, argl, d, cs in consumers:
+        for i in sb.live_blocks():
+            for s_ in sb.stmts(i):
+                if s_["k"] == "assign" and s_["lhs"]["l"] == 1 and any(e[0] == "deref" for e in s_["lhs"].get("p", [])):
+                    fe = [e for e in s_["lhs"]["p"] if e[0] == "f"]
+                    if fe:
+                        written.add(fe[0][2])
+    for d in drains:
+        prd = Prov(d)
+        dep = None
+        for i in d.live_blocks():
+            t = d.term(i)
+            if t["k"] == "switch":
+                for x in prd.operand(t["discr"]):
+                    if x[0] == "arg" and x[1] == 1 and x[2] and x[2][0] in written:
+                        dep = (i, x[2][0])
+        ctx.check(dep is None, "R01.3", fnkey(d) + "#drain-control-independent-of-error-counters", loc(d, dep[0] if dep else None),
+                  "a branch of the drain loop reads `%s`, which the consumer updates when a write fails or succeeds: an error on one entry could stop or "
+                  "skip later entries" % (dep[1] if dep else ""), "no branch reads a field the consumer writes (%s)" % sorted(written))
     seen = set()
     cons_bodies = []
     for sb, argl, d, cs in consumers:
@@ -169,9 +206,13 @@ def run(ctx):
         cons_bodies.append(sb)
         nexts = [c for c in sb.calls() if is_next(c)]
         pr = Prov(sb)
-        mine = [c for c in nexts if len(c.args) >= 2 and any(o[0] == "arg" and o[1] == argl for o in pr.operand(c.args[1]))]
+        if isinstance(argl, tuple):      # inlined form: the entry is the payload of the pop at argl[1]; once-per-pop was checked above
+            mine = [c for c in nexts if len(c.args) >= 2 and any(o[0] in ("call", "callf") and o[1] == argl[1] for o in pr.operand(c.args[1]))]
+            ok, why = bool(mine), "no next call on the popped entry"
+        else:
+            mine = [c for c in nexts if len(c.args) >= 2 and any(o[0] == "arg" and o[1] == argl for o in pr.operand(c.args[1]))]
+            ok, why = exactly_once(sb, [c.bb for c in mine])
         key = fnkey(sb) + "#next-exactly-once"
-        ok, why = exactly_once(sb, [c.bb for c in mine])
         ctx.check(ok, "R01.2", key, loc(sb), "the popped entry is not handed to EntryIoStream::next exactly once on every path: " + why,
                   "next at bb%s on every path, never twice" % [c.bb for c in mine])
         other = [c for c in nexts if c not in mine]
@@ -269,6 +310,23 @@ def run(ctx):
                      lambda cs, i: cs is not None and (cs.is_trait_method("EntrySink", "append") or cs.is_trait_method("AnyEntrySink", "append_any")),
                      what="entry", carriers=lambda cs: cs.name in ("boxed", "new", "into", "from") and ("Entry" in cs.def_ or "Box" in cs.def_ or "convert" in cs.def_))
     return EXPL
+
+
+def _arms_rejoin(d, sw, pops):
+    """the arms of switch `sw` (e.g. a match on the write result that only does accounting) meet again in a common block before any
+    of them can pop the next entry or return: what happens to later entries cannot depend on which arm was taken"""
+    succs = d.succ(sw)
+    stops = set(pops) | set(d.return_blocks())
+    # candidate join blocks: reachable from every arm without passing a stop
+    reach = [d.reachable(s_, avoid=stops) for s_ in succs if (d.reachable(s_) & (stops))]   # arms that end in a panic are ignored
+    if len(reach) < 2:
+        return True
+    common = set.intersection(*reach) - stops
+    for j in common:
+        # j is a join if every arm must pass it before reaching a stop
+        if all(not (d.reachable(s_, avoid=[j]) & stops) or s_ == j for s_ in succs if (d.reachable(s_) & stops)):
+            return True
+    return False
 
 
 def _same_impl(b, others):
